@@ -17,7 +17,11 @@ import (
 // directory is taken through the OS (what a kill -9 leaves) and a second server is started on the
 // image; between program segments the server itself is stopped and restarted on the directory.
 
-var diskNames = []string{tname(parentA, "t1"), tname(parentA, "t2"), tname(parentB, "t1"), tname(parentA, "t10")}
+// parents whose instance or project id is the word the names use as a separator
+const parentT1 = "projects/p/instances/tables"
+const parentT2 = "projects/tables/instances/i"
+
+var diskNames = []string{tname(parentA, "t1"), tname(parentA, "t2"), tname(parentB, "t1"), tname(parentA, "t10"), tname(parentT1, "t1"), tname(parentT2, "tables")}
 
 func copyTree(src, dst string) error {
 	return filepath.Walk(src, func(p string, info os.FileInfo, err error) error {
@@ -308,6 +312,18 @@ func genC08(out, tier string, rng *rand.Rand) {
 	}
 	programs = append(programs, plain([][]Call{{create, create10, w("a", "1"), w10("x", "10"), {Req: Req{Kind: "delete", Table: t1}, Now: 1}}, {w10("y", "11"), create, w("b", "2"), {Req: Req{Kind: "drop", Table: t1, All: true}, Now: 1}}, {w10("z", "12"), {Req: Req{Kind: "delete", Table: t10}, Now: 1}}, {w("c", "3")}}))
 	tags = append(tags, "prefix-related-ids")
+	// instances and projects called "tables" (ids are free-form): their tables are tables like any other,
+	// across restarts
+	{
+		mk := func(parent, tid string) []Call {
+			n := tname(parent, tid)
+			return []Call{{Req: Req{Kind: "create", Parent: parent, Tid: tid, Fams: []FamDef{{Name: "cf"}}}, Now: 1000},
+				{Req: Req{Kind: "mutate", Table: n, Key: []byte("k"), Muts: []Mutation{{Kind: "set", Fam: "cf", Q: []byte("q"), Ts: 1000, V: []byte(tid)}}}, Now: 5000}}
+		}
+		seg1 := append(append(append([]Call{}, mk(parentT1, "t1")...), mk(parentT2, "tables")...), create, w("a", "1"))
+		programs = append(programs, plain([][]Call{seg1, {w("b", "2"), {Req: Req{Kind: "read", Table: tname(parentT1, "t1")}, Now: 1}}, {{Req: Req{Kind: "read", Table: tname(parentT2, "tables")}, Now: 1}, {Req: Req{Kind: "delete", Table: t1}, Now: 1}}, {{Req: Req{Kind: "read", Table: t1}, Now: 1}}}))
+		tags = append(tags, "parents-named-tables")
+	}
 	// keys, qualifiers and values on both sides of the sizes at which length prefixes grow, across restarts
 	{
 		lf := longFieldProgram()
